@@ -74,6 +74,8 @@ type Flow struct {
 	ContextInsensitive bool
 	// TrackBoolReturns: constant boolean results of inlined calls decide the If that tests them.
 	TrackBoolReturns bool
+	// RunDefersHook: consulted when a function is about to run its deferred calls.
+	RunDefersHook func(fr *Frame, st string, in *ssa.RunDefers) []string
 
 	memo    map[string][]string
 	Visited map[*ssa.Function]bool
@@ -260,6 +262,11 @@ func (f *Flow) runOne(fr *Frame, st0 string) []string {
 				for _, es := range cur {
 					e := dec(es)
 					sts := []string{e.st}
+					if f.RunDefersHook != nil {
+						if r := f.RunDefersHook(fr, e.st, in); r != nil {
+							sts = uniq(r)
+						}
+					}
 					if e.defers != "" {
 						ids := strings.Split(e.defers, ",")
 						for i := len(ids) - 1; i >= 0; i-- {
